@@ -26,7 +26,8 @@ class Pipeline:
             # small single-exit helpers of the compiler class (e.g. an extracted "generate wasm" step) are read in place
             from .sem import expand_helpers
 
-            self.compile = expand_helpers(model, cc, self.compile)
+            # (the pass runner stays a call: the gating rules name it)
+            self.compile = expand_helpers(model, cc, self.compile, skip=("v_", "__RunPass", "_Compiler__RunPass"))
         self.runpass = cc.own_method("__RunPass")
 
     def _pass_list(self, init, attr) -> List[str]:
